@@ -237,7 +237,29 @@ fn run_row(case: &Value) -> Vec<(String, Value, Value)> {
     .type_(MethodType::JSON_WEB_KEY_2020)
     .data(MethodData::PublicKeyJwk(j.clone()))
     .build();
-  for (name, r) in [("new_from_jwk", r1), ("MethodBuilder::build", r2)] {
+  // ... nor does the did:jwk route: the method of a did:jwk DID and the document it expands to
+  let did_jwk = identity_did::DIDJwk::parse(&format!("did:jwk:{}", identity_jose::jwu::encode_b64(serde_json::to_vec(&j).unwrap())));
+  let r3 = match &did_jwk {
+    Ok(d) => VerificationMethod::try_from(d.clone()).map_err(|e| e.to_string()),
+    Err(e) => Err(e.to_string()),
+  };
+  if let Ok(d) = &did_jwk {
+    if let Ok(doc) = CoreDocument::expand_did_jwk(d.clone()) {
+      let text = serde_json::to_string(&doc).unwrap();
+      let v: Value = serde_json::from_str(&text).unwrap();
+      let leaked: Vec<&str> = PRIVATE_NAMES
+        .iter()
+        .copied()
+        .filter(|n| v["verificationMethod"].as_array().map(|a| a.iter().any(|m| m["publicKeyJwk"].get(*n).is_some())).unwrap_or(false))
+        .collect();
+      if !b(&out["method_ok"]) || !leaked.is_empty() {
+        diffs.push(("method_with_private_key/expand_did_jwk".into(), json!("refused"), json!(leaked)));
+      }
+    }
+  }
+  let r1 = r1.map_err(|e| e.to_string());
+  let r2 = r2.map_err(|e| e.to_string());
+  for (name, r) in [("new_from_jwk", r1), ("MethodBuilder::build", r2), ("TryFrom<DIDJwk>", r3)] {
     match r {
       Ok(m) => {
         let text = serde_json::to_string(&m).unwrap();
